@@ -350,14 +350,17 @@ theorem fanout_char (subs : List (Nat × Nat)) :
 
 /-- Representation invariant of the broker model: both tries have unique map
 keys at every node (they are Go maps) and one entry per subscriber and node;
-every live connection's session reference resolves to a session object. -/
+every stored retained message has its RETAIN flag set; every live connection's
+session reference resolves to a session object. -/
 structure Inv (b : B) : Prop where
   wf : WF b.topics.sroot
   rwf : RWF b.topics.rroot
+  rflag : ∀ e ∈ absR b.topics.rroot, e.2.retain = true
   sess : ∀ cn ∈ b.conns, cn.alive = true → (b.getSess cn.sess).isSome = true
 
 theorem Inv_init : Inv {} :=
-  ⟨Mqtt.Proofs.Topics.WF_empty, Mqtt.Proofs.Topics.RWF_empty, by intro cn h; cases h⟩
+  ⟨Mqtt.Proofs.Topics.WF_empty, Mqtt.Proofs.Topics.RWF_empty,
+   by intro e h; simp [MemTopics.new, Mqtt.Proofs.Topics.absR_empty] at h, by intro cn h; cases h⟩
 
 /-- a live connection of a state satisfying the invariant: its table entry and its session -/
 theorem Inv.live (b : B) (h : Inv b) (c : Nat) (hl : b.alive c = true) :
